@@ -88,7 +88,7 @@ func checkC16(c *Ctx) {
 
 	c.Clause("feature disabled ⇒ the function returns before touching any header")
 	c.Clause("enabled ⇒ the response header is set exactly once, under the configured name, before the chain runs")
-	c.Clause("generated path: request and response receive the same generated value; supplied path: the request is untouched and the response value is TrimSpace of the supplied one")
+	c.Clause("generated path: request and response receive the same generated value; supplied path: the value echoed is the value the request carries on — the request untouched and echoed as sent, or the normalised value placed on both")
 	c.Clause("the header name is RequestHeaderName/TraceHeaderName(cfg) on both sides")
 	c.Clause("generated identifiers derive from crypto/rand.Read over a buffer of ≥ 12 bytes")
 	c.Clause("buildHandler applies RequestContextMiddleware outermost on every non-error path")
@@ -131,7 +131,7 @@ func checkC16(c *Ctx) {
 		spec := spec
 		mine := func(it Item) bool { return isHdr(it) && strings.HasPrefix(keyOf(it), nameFn+spec[2]) }
 		c.traceRule("id-propagation", "logging.RequestContextMiddleware/"+spec[0], inner, c.idSpec(),
-			"disabled: no header touched; enabled: one response Set under the configured name; generated value mirrored to the request, supplied value echoed trimmed",
+			"disabled: no header touched; enabled: one response Set under the configured name; the value echoed is the value the request carries to the backend (generated or supplied)",
 			func(t *Trace) string {
 				en, _, ok := c.findRel(t, spec[1], "", 0, -1)
 				if !ok {
@@ -183,8 +183,34 @@ func checkC16(c *Ctx) {
 					return "undecided: the identifier supplied under the configured request header is not tested for emptiness (after trimming)"
 				}
 				supplied := sup.Neq || sup.Lo != 0
+				sameValue := func() bool {
+					a, b := headerValueOf(req[0].Instr), headerValueOf(resp[0].Instr)
+					if a != nil && a == b {
+						return true
+					}
+					if phi, ok := b.(*ssa.Phi); ok {
+						for _, e := range phi.Edges {
+							if e == a {
+								return true
+							}
+						}
+					}
+					return false
+				}
 				if supplied {
-					if len(req) != 0 {
+					// "the value the backend sees equals the value the client gets": either the request is
+					// left alone and the very value it carries is echoed, or the value that is echoed is
+					// also placed on the request
+					switch {
+					case len(req) == 0:
+						if strings.Contains(rv, "strings.TrimSpace(") {
+							return "a client-supplied identifier is echoed trimmed while the request keeps it as sent: for a value wrapped in blanks the header parser does not strip (U+00A0, U+2003, U+0085 …) the backend sees one value and the client gets another"
+						}
+					case len(req) == 1 && strings.HasPrefix(req[0].Label, "req.Set("):
+						if !sameValue() {
+							return "client-supplied identifier: the value placed on the request is not the value echoed to the client: " + req[0].Label
+						}
+					default:
 						return "client-supplied identifier is altered on the request: " + req[0].Label
 					}
 				} else {
@@ -197,23 +223,12 @@ func checkC16(c *Ctx) {
 					}
 				}
 				// the response value is the (phi of) trimmed supplied value and generated value
-				if !strings.Contains(rv, "strings.TrimSpace(") || !strings.Contains(rv, genName+"(") {
-					return "response value is not the trimmed supplied identifier / the generated identifier: " + rv
+				if !(strings.Contains(rv, "strings.TrimSpace(") || strings.Contains(rv, "(net/http.Header).Get(fld:http.Request.Header,")) || !strings.Contains(rv, genName+"(") {
+					return "response value is not the supplied identifier / the generated identifier: " + rv
 				}
 				// same SSA value on both sides on the generated path
-				if !supplied {
-					a, b := headerValueOf(req[0].Instr), headerValueOf(resp[0].Instr)
-					same := a != nil && a == b
-					if phi, ok := b.(*ssa.Phi); ok {
-						for _, e := range phi.Edges {
-							if e == a {
-								same = true
-							}
-						}
-					}
-					if !same {
-						return "the value the backend sees is not the value the client gets"
-					}
+				if !supplied && !sameValue() {
+					return "the value the backend sees is not the value the client gets"
 				}
 				return ""
 			})
